@@ -8,6 +8,7 @@ mutations in the code, not a by-construction fact. The cardinality part (C09 ope
 `C05`'s own `refused_unchanged` theorem.
 -/
 import OdmlModel.Proofs.HeapStep
+import OdmlModel.Proofs.HeapExtRefuseLink
 import OdmlModel.Props.C03
 import OdmlModel.Props.C09
 
@@ -50,6 +51,286 @@ theorem extend_all_or_nothing (h : H) (w : WF h) (p : Nat) (xs : List Nat) (e : 
 theorem cardinality_refused_keeps (old : Card.Card) (v : Card.In)
     (hr : Card.formatCard v = .valueError) : Card.setCard old v = (old, false) :=
   C09.set_refused_keeps old v hr
+
+/-! ## Compound operations: merge and the link setter (`Model/HeapExt.lean`)
+
+`stepX` is one operation of a history over the extended operation set; the state is the heap
+together with the `_merged` and `_link` attributes of the Sections (`X`; its fourth component
+`orig` is scratch space of one operation and is reset by `stepX`, `X.start`). -/
+
+/-- The documents involved are exactly as they were: every object (kind, name, id, parent, both
+    child lists), the set of allocated objects, and the `_merged` / `_link` attributes. -/
+def Unchanged (s s' : X) : Prop := s'.h = s.h ∧ s'.merged = s.merged ∧ s'.link = s.link
+
+theorem unchanged_start (s : X) : Unchanged s s.start := ⟨rfl, rfl, rfl⟩
+
+/-- The refusals of `dest.merge(src)` raised before anything is touched: a handle that is no
+    object / an object that is not a Section (`hbad`), `merge_check` (attribute or Property clash
+    somewhere below, `some false`), `_merge_name_check` (a Section of the source would be added
+    under a name the destination already uses). -/
+def MergeRefusedUpFront (O : Oracle) (fuel : Nat) (s : X) (dest src : Nat) : Prop :=
+  ¬ (dest < s.h.size ∧ src < s.h.size ∧ (s.h.node dest).kind = .sec ∧ (s.h.node src).kind = .sec) ∨
+  mergeCheck O fuel s.start dest src = some false ∨
+  (mergeCheck O fuel s.start dest src = some true ∧ nameCheck O fuel s.start dest src = some false)
+
+/-- (1) for merge, in *every* state: a merge refused by a pre-check raises and leaves the heap and
+    the `_merged` / `_link` bookkeeping exactly as they were. -/
+theorem merge_refused_up_front_changes_nothing (fuel : Nat) (s : X) (O : Oracle) (dest src : Nat)
+    (hpre : MergeRefusedUpFront O fuel s dest src) :
+    (∃ e, (stepX (fuel + 1) s O (.merge dest src)).2 = .raised e) ∧
+    Unchanged s (stepX (fuel + 1) s O (.merge dest src)).1 := by
+  by_cases hok : dest < s.h.size ∧ src < s.h.size ∧ (s.h.node dest).kind = .sec ∧
+      (s.h.node src).kind = .sec
+  · rw [Refuse.stepX_merge_eq _ _ _ _ _ hok.1 hok.2.1 hok.2.2.1 hok.2.2.2]
+    unfold mergePub
+    rcases hpre with h | h | ⟨h1, h2⟩
+    · exact absurd hok h
+    · rw [Refuse.mergeAux_check_refused _ _ _ _ _ _ h]; exact ⟨⟨_, rfl⟩, unchanged_start s⟩
+    · rw [Refuse.mergeAux_name_refused _ _ _ _ _ _ h1 h2]; exact ⟨⟨_, rfl⟩, unchanged_start s⟩
+  · obtain ⟨e, he⟩ := Refuse.stepX_merge_bad_args (fuel + 1) s O dest src hok
+    rw [he]; exact ⟨⟨e, rfl⟩, unchanged_start s⟩
+
+/-- (1) for the link setter, unresolvable path (`get_section_by_path` raises), wrong kind of
+    object, no object: whenever `x.link = <path that finds nothing>` raises, nothing has changed -
+    in every state. (On a Section without parent the assignment only stores the text and does
+    not raise.) -/
+theorem link_unresolvable_changes_nothing (fuel : Nat) (s : X) (O : Oracle) (x : Nat) (e : Exc)
+    (hr : (stepX fuel s O (.setLink x (.path none))).2 = .raised e) :
+    Unchanged s (stepX fuel s O (.setLink x (.path none))).1 := by
+  by_cases hok : (∀ i ∈ (XOp.setLink x (.path none)).handles, i < s.h.size) ∧
+      (s.h.node x).kind = .sec
+  · rw [Refuse.stepX_setLink_eq _ _ _ _ _ hok.1 hok.2] at hr ⊢
+    unfold setLinkAux at hr ⊢
+    split
+    · rename_i hp; rw [hp] at hr; cases hr
+    · exact unchanged_start s
+  · obtain ⟨e', he⟩ := Refuse.stepX_setLink_bad_args fuel s O x (.path none) hok
+    rw [he]; exact unchanged_start s
+
+/-- ... and on an attached Section it does raise. -/
+theorem link_unresolvable_raises (fuel : Nat) (s : X) (O : Oracle) (x : Nat)
+    (hp : (s.h.node x).parent ≠ none) :
+    ∃ e, stepX fuel s O (.setLink x (.path none)) = (s.start, .raised e) := by
+  by_cases hok : (∀ i ∈ (XOp.setLink x (.path none)).handles, i < s.h.size) ∧
+      (s.h.node x).kind = .sec
+  · rw [Refuse.stepX_setLink_eq _ _ _ _ _ hok.1 hok.2]
+    unfold setLinkAux
+    split
+    · rename_i h; exact absurd h hp
+    · exact ⟨_, rfl⟩
+  · exact Refuse.stepX_setLink_bad_args fuel s O x (.path none) hok
+
+/-- (1) for the link setter, target refused by a pre-check of the merge: on a Section that has no
+    link yet, `x.link = <path of t>` raises ValueError and nothing has changed. -/
+theorem link_refused_up_front_changes_nothing (fuel : Nat) (s : X) (O : Oracle) (x t : Nat)
+    (hx : x < s.h.size) (ht : t < s.h.size) (hk : (s.h.node x).kind = .sec)
+    (hp : (s.h.node x).parent ≠ none) (hl : s.link x = false)
+    (hpre : mergeCheck O fuel s.start x t = some false ∨
+      (mergeCheck O fuel s.start x t = some true ∧ nameCheck O fuel s.start x t = some false)) :
+    stepX (fuel + 1) s O (.setLink x (.path (some t))) = (s.start, .raised .valueError) := by
+  rw [Refuse.stepX_setLink_eq _ _ _ _ _ (by
+    intro i hi; simp [XOp.handles] at hi; rcases hi with rfl | rfl <;> assumption) hk]
+  have hm : mergeAux O (fuel + 1) s.start true x t = (s.start, .raised .valueError) := by
+    rcases hpre with h | ⟨h1, h2⟩
+    · exact Refuse.mergeAux_check_refused _ _ _ _ _ _ h
+    · exact Refuse.mergeAux_name_refused _ _ _ _ _ _ h1 h2
+  have hc : cleanIfLinked O (fuel + 1) s.start x = (s.start, .ok) := by
+    unfold cleanIfLinked; simp [hl]
+  have hres : s.start.resolved x = false := by simp [X.resolved, hl]
+  exact C03.stored_link_not_reassigned O (fuel + 1) s.start s.start s.start x t _ hp hres hc hm
+    (by decide)
+
+/-! ### All-or-nothing: a compound operation is refused by a pre-check or completes
+
+Hypotheses, all about the state the operation starts from:
+* `WF s.h` - the invariant of C03, which every history over the extended operation set keeps
+  (`C03.wf_reachable`); it contains the uniqueness of sibling names (C04);
+* `NoEmptyName s.h` - no object has the empty name (decidable; names fall back to the id, a
+  rendered UUID: `C04.names_never_empty` for histories whose ids are not empty);
+* neither of the two Sections lies inside the other, in the words of the library:
+  `_check_no_cycle` answers "no" in both directions (`cycleCheck … = false`, decidable).
+  (A merge of a Section with one of its own descendants re-reads, in its later loops, lists it
+  has itself extended; for those the checks made up front say nothing.) -/
+
+/-- (2) for merge, the statement of C06 for it: a `dest.merge(src)` that raises - whatever it
+    raises, whatever the oracle answers, whatever the budget - has left the heap and the
+    `_merged` / `_link` bookkeeping exactly as they were. In particular the clone-and-append
+    loops never raise half-way (no KeyError of `append`, no ValueError of a `merge_check` or
+    `Property.merge` deeper down). -/
+theorem merge_all_or_nothing (fuel : Nat) (s : X) (O : Oracle) (dest src : Nat)
+    (w : WF s.h) (hn : Refuse.NoEmptyName s.h)
+    (h1 : cycleCheck s.h dest src = false) (h2 : cycleCheck s.h src dest = false) (e : Exc)
+    (hr : (stepX fuel s O (.merge dest src)).2 = .raised e) :
+    Unchanged s (stepX fuel s O (.merge dest src)).1 := by
+  by_cases hok : dest < s.h.size ∧ src < s.h.size ∧ (s.h.node dest).kind = .sec ∧
+      (s.h.node src).kind = .sec
+  · rw [Refuse.stepX_merge_eq _ _ _ _ _ hok.1 hok.2.1 hok.2.2.1 hok.2.2.2] at hr ⊢
+    unfold mergePub at hr ⊢
+    rw [Refuse.mergeAux_all_or_nothing O fuel s.start _ dest src w hn hok.2.2.1 hok.2.2.2
+      (meetsUp_false w h2) (meetsUp_false w h1) e hr]
+    exact unchanged_start s
+  · obtain ⟨e', he⟩ := Refuse.stepX_merge_bad_args fuel s O dest src hok
+    rw [he]; exact unchanged_start s
+
+/-- ... and it raises exactly when one of the pre-checks refuses it (cf. `C13.merge_raises_iff`
+    for the tree model). -/
+theorem merge_raises_iff (fuel : Nat) (s : X) (O : Oracle) (dest src : Nat)
+    (w : WF s.h) (hn : Refuse.NoEmptyName s.h)
+    (h1 : cycleCheck s.h dest src = false) (h2 : cycleCheck s.h src dest = false) :
+    (∃ e, (stepX (fuel + 1) s O (.merge dest src)).2 = .raised e) ↔
+      MergeRefusedUpFront O fuel s dest src := by
+  constructor
+  · intro ⟨e, hr⟩
+    by_cases hok : dest < s.h.size ∧ src < s.h.size ∧ (s.h.node dest).kind = .sec ∧
+        (s.h.node src).kind = .sec
+    · rw [Refuse.stepX_merge_eq _ _ _ _ _ hok.1 hok.2.1 hok.2.2.1 hok.2.2.2] at hr
+      unfold mergePub at hr
+      cases hc : mergeCheck O fuel s.start dest src with
+      | none => rw [Refuse.mergeAux_check_fuel _ _ _ _ _ _ hc] at hr; cases hr
+      | some b =>
+        cases b with
+        | false => exact Or.inr (Or.inl hc)
+        | true =>
+          cases hnc : nameCheck O fuel s.start dest src with
+          | none => rw [Refuse.mergeAux_name_fuel _ _ _ _ _ _ hc hnc] at hr; cases hr
+          | some b' =>
+            cases b' with
+            | false => exact Or.inr (Or.inr ⟨hc, hnc⟩)
+            | true =>
+              rcases Refuse.mergeAux_no_raise O fuel s.start (!s.start.resolved dest) dest src w hn
+                hok.2.2.1 hok.2.2.2 (meetsUp_false w h2) (meetsUp_false w h1) hc hnc with h | h
+              · rw [h] at hr; cases hr
+              · rw [h] at hr; cases hr
+    · exact Or.inl hok
+  · intro hpre
+    exact (merge_refused_up_front_changes_nothing fuel s O dest src hpre).1
+
+/-- `clone` never raises (the TypeError for a handle that is no object apart), so it has nothing
+    to leave half-done. -/
+theorem clone_refused_changes_nothing (fuel : Nat) (s : X) (O : Oracle) (x : Nat) (ch kid : Bool)
+    (w : WF s.h) (hn : Refuse.NoEmptyName s.h) (e : Exc)
+    (hr : (stepX fuel s O (.clone x ch kid)).2 = .raised e) :
+    Unchanged s (stepX fuel s O (.clone x ch kid)).1 := by
+  unfold stepX at hr ⊢
+  simp only at hr ⊢
+  split
+  · exact unchanged_start s
+  · rename_i hg
+    rw [if_neg hg] at hr
+    have hx : x < s.h.size := by
+      rcases Nat.lt_or_ge x s.h.size with h | h
+      · exact h
+      · exfalso; apply hg; simp [XOp.handles, h]
+    have := (Refuse.cloneAux_full O fuel { s with orig := id } x ch kid w hn hx).out
+    generalize cloneAux O fuel { s with orig := id } x ch kid = r at this hr
+    obtain ⟨s1, c, o⟩ := r
+    simp only at this hr
+    rcases this with h | h <;> rw [h] at hr <;> cases hr
+
+/-- (2) for the link setter (fixes 06cfd75, 592a7e3: "ValueError and the state as before the
+    assignment"): `x.link = <path of t>` that raises has changed nothing - on a Section that has
+    no link yet, and in every state in which no Section is merged (links at most stored). -/
+theorem link_all_or_nothing (fuel : Nat) (s : X) (O : Oracle) (x t : Nat)
+    (w : WF s.h) (hn : Refuse.NoEmptyName s.h) (kt : (s.h.node t).kind = .sec)
+    (h1 : cycleCheck s.h x t = false) (h2 : cycleCheck s.h t x = false)
+    (hclean : s.link x = false ∨ ∀ i, i < s.h.size → s.merged i = none) (e : Exc)
+    (hr : (stepX fuel s O (.setLink x (.path (some t)))).2 = .raised e) :
+    Unchanged s (stepX fuel s O (.setLink x (.path (some t)))).1 := by
+  by_cases hok : (∀ i ∈ (XOp.setLink x (.path (some t))).handles, i < s.h.size) ∧
+      (s.h.node x).kind = .sec
+  · rw [Refuse.stepX_setLink_eq _ _ _ _ _ hok.1 hok.2] at hr ⊢
+    rw [Refuse.setLinkAux_all_or_nothing O fuel s.start x t w hn
+      (hok.1 x (by simp [XOp.handles])) hok.2 kt (meetsUp_false w h2) (meetsUp_false w h1)
+      hclean e hr]
+    exact unchanged_start s
+  · obtain ⟨e', he⟩ := Refuse.stepX_setLink_bad_args fuel s O x _ hok
+    rw [he]; exact unchanged_start s
+
+/-- The same at any point of any history over the extended operation set (`WF` is then a
+    theorem, `C03.wf_reachable`). -/
+theorem merge_all_or_nothing_anywhere (fuel fuel' : Nat) (ops : List (Oracle × XOp)) (O : Oracle)
+    (dest src : Nat) (hn : Refuse.NoEmptyName (runX fuel' X.empty ops).h)
+    (h1 : cycleCheck (runX fuel' X.empty ops).h dest src = false)
+    (h2 : cycleCheck (runX fuel' X.empty ops).h src dest = false) (e : Exc)
+    (hr : (stepX fuel (runX fuel' X.empty ops) O (.merge dest src)).2 = .raised e) :
+    Unchanged (runX fuel' X.empty ops) (stepX fuel (runX fuel' X.empty ops) O (.merge dest src)).1 :=
+  merge_all_or_nothing fuel _ O dest src (C03.wf_reachable fuel' ops) hn h1 h2 e hr
+
+/-- The operations of the extended set for which "raises ⇒ nothing changed" is proved, with the
+    side conditions of the theorems above (`clean`, and `link = None` / `""`, which clean, can
+    raise after they have detached copies: not covered). -/
+def Covered (s : X) : XOp → Prop
+  | .prim _ => True
+  | .clone _ _ _ => True
+  | .merge dest src => cycleCheck s.h dest src = false ∧ cycleCheck s.h src dest = false
+  | .setLink _ (.path none) => True
+  | .setLink x (.path (some t)) =>
+      (s.h.node t).kind = .sec ∧ cycleCheck s.h x t = false ∧ cycleCheck s.h t x = false ∧
+      (s.link x = false ∨ ∀ i, i < s.h.size → s.merged i = none)
+  | .setLink _ _ => False
+  | .clean _ => False
+
+/-- C06 over the extended operation set, in one statement: a covered operation - primitive or
+    compound - that raises has left the heap and the `_merged` / `_link` attributes exactly as
+    they were. -/
+theorem refused_compound_changes_nothing (fuel : Nat) (s : X) (O : Oracle) (op : XOp)
+    (w : WF s.h) (hn : Refuse.NoEmptyName s.h) (hc : Covered s op) (e : Exc)
+    (hr : (stepX fuel s O op).2 = .raised e) : Unchanged s (stepX fuel s O op).1 := by
+  cases op with
+  | prim p =>
+    unfold stepX at hr ⊢
+    simp only at hr ⊢
+    split
+    · exact unchanged_start s
+    · rename_i hg
+      rw [if_neg hg] at hr
+      have hr' : (step s.h p).2 = .raised e := by
+        have : XOut.ofOutcome (step s.h p).2 = .raised e := hr
+        cases h : (step s.h p).2 with
+        | ok => rw [h] at this; cases this
+        | raised e' => rw [h] at this; cases this; rfl
+      exact ⟨refused_changes_nothing s.h w p e hr', rfl, rfl⟩
+  | clone x ch kid => exact clone_refused_changes_nothing fuel s O x ch kid w hn e hr
+  | merge dest src => exact merge_all_or_nothing fuel s O dest src w hn hc.1 hc.2 e hr
+  | setLink x v =>
+    cases v with
+    | none => exact absurd hc (by simp [Covered])
+    | falsy => exact absurd hc (by simp [Covered])
+    | path t =>
+      cases t with
+      | none => exact link_unresolvable_changes_nothing fuel s O x e hr
+      | some t => exact link_all_or_nothing fuel s O x t w hn hc.1 hc.2.1 hc.2.2.1 hc.2.2.2 e hr
+  | clean x => exact absurd hc (by simp [Covered])
+
+/-! ### Non-vacuity of the compound part -/
+
+/-- Section 4 has another type than the rest -/
+def demoOracleTyped : Oracle := { C03.demoOracle with ty := fun i => if i = 4 then "u" else "t" }
+
+/-- doc(0) / a(1) / x(3) and doc / b(2) / x(4), the second `x` of another type -/
+def demoClash : X := runX 10 X.empty [
+  (demoOracleTyped, .prim (.construct .doc "" "d" none true)),
+  (demoOracleTyped, .prim (.construct .sec "a" "i1" (some 0) true)),
+  (demoOracleTyped, .prim (.construct .sec "b" "i2" (some 0) true)),
+  (demoOracleTyped, .prim (.construct .sec "x" "i3" (some 1) true)),
+  (demoOracleTyped, .prim (.construct .sec "x" "i4" (some 2) true))]
+
+/-- the hypotheses of the all-or-nothing theorems hold there ... -/
+example : Refuse.NoEmptyName demoClash.h ∧ cycleCheck demoClash.h 2 1 = false ∧
+    cycleCheck demoClash.h 1 2 = false ∧ (∀ i, i < demoClash.h.size → demoClash.merged i = none) := by
+  decide
+example : WF demoClash.h := C03.wf_reachable 10 _
+/-- ... `b.merge(a)` is refused by `_merge_name_check` (b has an `x` of another type) ... -/
+example : mergeCheck demoOracleTyped 9 demoClash.start 2 1 = some true ∧
+    nameCheck demoOracleTyped 9 demoClash.start 2 1 = some false ∧
+    (stepX 10 demoClash demoOracleTyped (.merge 2 1)).2 = .raised .valueError := by decide
+/-- ... so is `b.link = <path of a>`; with an oracle that sees one type, both go through ... -/
+example : (stepX 10 demoClash demoOracleTyped (.setLink 2 (.path (some 1)))).2 =
+    .raised .valueError := by decide
+example : (stepX 10 demoClash C03.demoOracle (.merge 2 1)).2 = .ok ∧
+    (stepX 10 demoClash C03.demoOracle (.setLink 2 (.path (some 1)))).2 = .ok := by decide
+/-- ... and a merge with a Section inside the destination is outside the hypotheses. -/
+example : cycleCheck demoClash.h 3 1 = true := by decide
 
 /-! ## Non-vacuity: refusals do occur in reachable states -/
 
